@@ -2,12 +2,7 @@
 
 package hfs
 
-import (
-	"encoding/json"
-	"regexp"
-)
+import "regexp"
 
 var reULIDc = regexp.MustCompile(`seq-db-[0-9A-HJKMNP-TV-Z]{26}`)
 var reNumc = regexp.MustCompile(`[0-9]+`)
-
-func c19Handle(raw json.RawMessage) any { return nil }
